@@ -18,7 +18,7 @@ INFO = {
         'code\'s expression is the A4 instance (right margin, right spread, right normaliser).'),
     'bounds': {
         'quick': 'five models x shapes (1,1),(2,1),(2,2),(3,2) [n=2: total players N = 2..5], (1,1,1),(1,2,1) [all clauses], (1,1,1,1) [range, perm(6), equal]',
-        'thorough': '+ (4,4),(8,8),(1,8) for the n = 2 bound (N = 8, 16, 9), (2,2,2),(1,1,1,1) all permutations, (1,1,1,1,1) range/equal',
+        'thorough': '+ (4,4),(8,8),(1,8) for the n = 2 bound (N = 8, 16, 9), (2,2,2),(1,1,1,1) all permutations, (1,1,1,1,1) range',
     },
     'outside': ['IEEE rounding; exact <= 1 at sigma = 0, N = 2 (there the real-valued result is 1 up to the rounding of the float constant Phi^-1(3/4))',
                 'n = 2 bound for N not listed (each N needs its own certified constant)'],
@@ -56,7 +56,6 @@ def jobs(tier):
             for clause in ('range', 'perm', 'equal'):
                 add(key, (2, 2, 2), clause, budget=1800, cost=200)
             add(key, (1, 1, 1, 1, 1), 'range', budget=1800, cost=300)
-            add(key, (1, 1, 1, 1, 1), 'equal', budget=1800, cost=300)
     return out
 
 
